@@ -196,7 +196,7 @@ def language_classes(prj: Project) -> list[ClassInfo]:
     return subs
 
 
-def extract_header_patterns(prj: Project) -> list[HeaderPattern]:
+def extract_header_patterns_structural(prj: Project) -> list[HeaderPattern]:
     dsl = DSL(prj)
     get_headers = prj.func("codelimit.common.scope.scope_utils:get_headers")
     out = []
@@ -228,6 +228,141 @@ def extract_header_patterns(prj: Project) -> list[HeaderPattern]:
         if idx == 0:
             raise AnalysisError(f"{fi.disp}: no get_headers(...) call found; header patterns of {ci.name} unknown")
     return out
+
+
+
+class _Capture:
+    """Evaluates code of the repo that builds pattern expressions and records, for every
+    operator / predicate object, the class and the constructor arguments it was built from."""
+
+    def __init__(self, prj: Project):
+        from .absint import MiniInterp
+        self.prj = prj
+        self.operator_base = prj.cls("codelimit.common.gsm.operator.Operator:Operator")
+        self.predicate_base = prj.cls("codelimit.common.gsm.predicate.Predicate:Predicate")
+        self.get_headers = prj.func("codelimit.common.scope.scope_utils:get_headers")
+        self.calls: list = []
+        self.it = MiniInterp(prj, self.hook, max_steps=200000)
+
+    def hook(self, it, kind, f, args, kwargs, node, cur):
+        from .absint import BoundFunc, T
+        if kind != "call":
+            return NotImplemented
+        if isinstance(f, BoundFunc) and f.fi.qual == self.get_headers.qual:
+            ps = [p for p in self.get_headers.params()]
+            bound = dict(zip(ps, args))
+            bound.update(kwargs)
+            self.calls.append((bound.get("tokens"), bound.get("expression"), bound.get("followed_by"), node, cur))
+            return []
+        if isinstance(f, BoundFunc) and f.fi.name in ("find_all", "starts_with", "match") and f.fi.module.name.endswith("gsm.matcher"):
+            raise AnalysisError(f"{cur.site(node) if cur and node is not None else f.fi.disp}: extract_headers uses the matcher "
+                                f"directly; only patterns handed to get_headers(...) are modelled")
+        if isinstance(f, tuple) and f and f[0] == "class" and (f[1].is_subclass_of(self.operator_base) or f[1].is_subclass_of(self.predicate_base)):
+            obj = it.construct(f[1], args, kwargs, node, cur)
+            obj.ctor = (f[1], list(args), dict(kwargs), cur.site(node) if cur is not None and node is not None else "")
+            return obj
+        return NotImplemented
+
+    # -- objects -> pattern trees
+    def to_pred(self, v, inside: bool, site: str = "") -> Pred:
+        from .absint import Sym
+        if isinstance(v, str):
+            return Pred("TokenValue", (v,)) if inside else Pred("Identity", (v,))
+        if isinstance(v, Sym) and v.cls is not None and v.cls.is_subclass_of(self.predicate_base):
+            ctor = getattr(v, "ctor", None)
+            if ctor is None:
+                raise AnalysisError(f"predicate object {v} was not built by a constructor call that was evaluated")
+            ci, args, kwargs, site = ctor
+            init = ci.find_method("__init__")
+            pnames = [p for p in init.params() if p != "self"] if init else []
+            bound = dict(zip(pnames, args))
+            bound.update(kwargs)
+            if init is not None:
+                for p in pnames:
+                    if p not in bound:
+                        d = self.prj.func(init.qual).param_default(p)
+                        if d is None:
+                            raise AnalysisError(f"{site}: {ci.name}(...) misses argument {p}")
+                        bound[p] = self.it.ev(d, {}, self.prj.func(init.qual))
+            out = []
+            for p in pnames:
+                a = bound[p]
+                if isinstance(a, Sym):
+                    out.append(self.to_pred(a, True, site))
+                elif isinstance(a, str):
+                    # a str the constructor coerced to a predicate object is represented by that object
+                    co = [x for x in v.fields.values() if isinstance(x, Sym) and getattr(x, "ctor", None) is not None
+                          and x.ctor[1] == [a] and not x.ctor[2] and x.cls.is_subclass_of(self.predicate_base)]
+                    out.append(self.to_pred(co[0], True, site) if co else a)
+                else:
+                    raise AnalysisError(f"{site}: argument {p}={a!r} of {ci.name} is neither a string nor a predicate")
+            return Pred(ci.name, tuple(out), site)
+        raise AnalysisError(f"{site}: {v!r} is not a predicate")
+
+    def to_pat(self, v, site: str = "") -> Pat:
+        from .absint import Sym
+        if isinstance(v, (list, tuple)) and not (isinstance(v, tuple) and type(v) is not tuple):
+            return Pat("seq", [self.to_pat(e, site) for e in v])
+        if isinstance(v, Sym) and v.cls is not None and v.cls.is_subclass_of(self.operator_base):
+            ctor = getattr(v, "ctor", None)
+            if ctor is None:
+                raise AnalysisError(f"operator object {v} was not built by an evaluated constructor call")
+            ci, args, kwargs, site = ctor
+            if kwargs:
+                init = ci.find_method("__init__")
+                pnames = [p for p in init.params() if p != "self"] if init else []
+                args = list(args) + [kwargs[p] for p in pnames[len(args):] if p in kwargs]
+            names = [c.name for c in ci.mro()]
+            if "Atom" in names and len(args) == 1:
+                return self.to_pat(args[0], site)
+            op = next((OPERATOR_OPS[n] for n in names if n in OPERATOR_OPS), None)
+            if op is None:
+                raise AnalysisError(f"{site}: operator {ci.name} is not modelled")
+            kids = [self.to_pat(a, site) for a in args]
+            if op == "union" and len(kids) != 2 or op != "union" and len(kids) != 1:
+                raise AnalysisError(f"{site}: wrong arity for {ci.name}")
+            return Pat(op, kids)
+        return Pat("atom", pred=self.to_pred(v, False, site))
+
+
+def extract_header_patterns_evaluated(prj: Project) -> list[HeaderPattern]:
+    """The (expression, followed_by) arguments every Language.extract_headers hands to get_headers,
+    obtained by evaluating extract_headers on an empty token list with get_headers replaced by a
+    recorder (the patterns are built by the repo's own constructors, helpers and factories)."""
+    from .absint import PyRaise, Unknown
+    out = []
+    for ci in language_classes(prj):
+        m = ci.find_method("extract_headers")
+        if m is None or m.cls.qual == "codelimit.common.Language:Language":
+            raise AnalysisError(f"{ci.qual} has no extract_headers of its own")
+        fi = prj.func(m.qual)
+        cap = _Capture(prj)
+        tokens: list = []
+        try:
+            obj = cap.it.construct(ci, [], {}, None, fi)
+            cap.it.call(fi, [tokens], {}, obj)
+        except PyRaise as e:
+            raise Unknown(f"{fi.disp} raises {e.name} on an empty token list")
+        if not cap.calls:
+            raise AnalysisError(f"{fi.disp}: no get_headers(...) call reached; header patterns of {ci.name} unknown")
+        for idx, (tk, expr, follow, node, cur) in enumerate(cap.calls):
+            if tk is not tokens:
+                raise Unknown(f"{fi.disp}: get_headers is called on something other than the tokens argument")
+            site = cur.site(node) if cur is not None and node is not None else fi.disp
+            if expr is None:
+                raise AnalysisError(f"{site}: get_headers call without expression")
+            hp = HeaderPattern(ci.name, fi, idx, node, cap.to_pat(expr, site), cap.to_pat(follow, site) if follow else None)
+            hp.site = site
+            out.append(hp)
+    return out
+
+
+def extract_header_patterns(prj: Project) -> list[HeaderPattern]:
+    from .absint import Unknown
+    try:
+        return extract_header_patterns_evaluated(prj)
+    except Unknown:
+        return extract_header_patterns_structural(prj)
 
 
 # ----------------------------------------------------------------------------
@@ -290,8 +425,8 @@ class PredObj:
         return f"<{self.ci.name} {self.fields}>"
 
 
-class Interp:
-    """A tiny abstract interpreter for the predicate classes' methods and the
+class OldInterp:
+    """(superseded by Interp below, kept as the fallback) A tiny abstract interpreter for the predicate classes' methods and the
     Token.is_* methods.  Supported fragment: if/elif/else, return, assignments and
     augmented assignments to self.<field>, and/or/not, ==, !=, <, <=, >, >=, in
     (pygments kind membership), str.isspace/strip/lower/startswith on the token
@@ -562,6 +697,68 @@ class Interp:
             for x, y in zip(a.fields.values(), b.fields.values()))
 
 
+
+class Interp:
+    """Semantics of the predicate classes' methods and of Token.is_*: the methods are evaluated by the
+    abstract interpreter (sa.absint.MiniInterp) on instances built through the repo's own constructors and
+    on instances of the repo's Token carrying a pygments type.  A method outside the interpreted fragment
+    falls back to the older, narrower evaluator; if that fails too: Unsupported (-> ANALYSIS-ERROR)."""
+
+    def __init__(self, prj: Project):
+        from .absint import MiniInterp
+        self.prj = prj
+        self.token_cls = prj.cls("codelimit.common.Token:Token")
+        self.predicate_base = prj.cls("codelimit.common.gsm.predicate.Predicate:Predicate")
+        self.it = MiniInterp(prj, max_steps=10 ** 9, max_depth=30)
+        self._tokens: dict = {}
+        self.old = None
+
+    def _pred_class(self, name: str) -> ClassInfo:
+        cands = [c for c in self.prj.classes.values() if c.name == name and c.is_subclass_of(self.predicate_base)]
+        if len(cands) != 1:
+            raise AnalysisError(f"predicate class {name}: {len(cands)} candidates")
+        return cands[0]
+
+    def instantiate(self, p: Pred):
+        from .absint import PyRaise, Unknown
+        ci = self._pred_class(p.cls)
+        args = [self.instantiate(a) if isinstance(a, Pred) else a for a in p.args]
+        anchor = ci.find_method("__init__") or ci.find_method("accept")
+        try:
+            obj = self.it.construct(ci, args, {}, None, self.prj.func(anchor.qual))
+        except Unknown as e:
+            raise Unsupported(f"construction of {p}: {e}")
+        except PyRaise as e:
+            raise Unsupported(f"construction of {p} raises {e.name}")
+        obj.ci = ci
+        return obj
+
+    def token(self, a: "AToken"):
+        from .absint import make_token
+        k = (a.kind, a.value)
+        if k not in self._tokens:
+            self._tokens[k] = make_token(self.it, self.prj, KINDS[a.kind][-1] if a.kind in KINDS else a.kind, a.value)
+        return self._tokens[k]
+
+    def call_method(self, obj, name: str, args: list):
+        from .absint import PyRaise, Sym, Unknown
+        if isinstance(obj, AToken):
+            obj = self.token(obj)
+        if not isinstance(obj, Sym) or obj.cls is None:
+            raise Unsupported(f"call .{name} on {type(obj).__name__}")
+        m = obj.cls.find_method(name)
+        if m is None:
+            raise Unsupported(f"{obj.cls.name} has no method {name}")
+        args = [self.token(a) if isinstance(a, AToken) else a for a in args]
+        self.it.steps = 0
+        try:
+            return self.it.call(self.prj.func(m.qual), args, {}, obj)
+        except Unknown as e:
+            raise Unsupported(f"{obj.cls.name}.{name}: {e}")
+        except PyRaise as e:
+            raise Unsupported(f"{obj.cls.name}.{name} raises {e.name}")
+
+
 def _load(t):
     import copy
     t = copy.deepcopy(t)
@@ -573,6 +770,42 @@ def _load(t):
 # depth-abstracted stepping of a predicate instance
 # ----------------------------------------------------------------------------
 
+_STATE_READS: dict = {}
+
+
+def state_reads(prj: Project, ci: ClassInfo) -> set[str]:
+    """names of the fields of `self` read by accept()/is_open() of the class (every definition along the MRO) and by
+    the methods of the object these call, transitively"""
+    key = (id(prj), ci.qual)
+    if key in _STATE_READS:
+        return _STATE_READS[key]
+    todo = ["accept", "is_open"]
+    seen, reads = set(), set()
+    while todo:
+        name = todo.pop()
+        if name in seen:
+            continue
+        seen.add(name)
+        for c in ci.mro():
+            m = c.methods.get(name)
+            if m is None:
+                continue
+            m = prj.func(m.qual)
+            me = m.params()[0] if m.params() else "self"
+            for n in m.walk():
+                if isinstance(n, ast.Attribute) and isinstance(n.value, ast.Name) and n.value.id == me:
+                    if isinstance(n.ctx, ast.Load):
+                        reads.add(n.attr)
+                        todo.append(n.attr)       # a method of the object (called or passed on)
+                elif isinstance(n, ast.AugAssign) and isinstance(n.target, ast.Attribute) and \
+                        isinstance(n.target.value, ast.Name) and n.target.value.id == me:
+                    reads.add(n.target.attr)
+                elif isinstance(n, ast.Call) and isinstance(n.func, ast.Name) and n.func.id in ("getattr", "vars") :
+                    reads.add("*")
+    _STATE_READS[key] = reads
+    return reads
+
+
 class PredModel:
     """Semantics of one predicate term on abstract tokens, with the `depth` of
     Balanced predicates (anywhere inside the term) saturating at `cap`:
@@ -580,27 +813,36 @@ class PredModel:
 
     def __init__(self, interp: Interp, pred: Pred, cap: int):
         self.interp, self.pred, self.cap = interp, pred, cap
-        self.stateful = any(p.cls == "Balanced" for p in pred.walk())
+        self.stateful = bool(self._slots(self.interp.instantiate(self.pred)))
 
-    def _objs_with_depth(self, obj: PredObj):
+    def _slots(self, obj) -> list:
+        """(object, field) pairs that make up the state of the predicate: the integer / boolean fields which
+        accept() or is_open() (or a method of the object they call) read.  On the shipped classes that is the
+        `depth` of Balanced; `satisfied` is written but never read by them."""
         out = []
-        if "depth" in obj.fields:
-            out.append(obj)
+        ci = getattr(obj, "cls", None) or obj.ci
+        reads = state_reads(self.interp.prj, ci)
+        for f, v in obj.fields.items():
+            if (f in reads or "*" in reads) and isinstance(v, (int, bool)):
+                out.append((obj, f))
         for v in obj.fields.values():
-            if isinstance(v, PredObj):
-                out.extend(self._objs_with_depth(v))
+            if hasattr(v, "fields") and getattr(v, "cls", getattr(v, "ci", None)) is not None:
+                out.extend(self._slots(v))
         return out
 
     def initial(self) -> tuple:
         obj = self.interp.instantiate(self.pred)
-        return tuple(o.fields["depth"] for o in self._objs_with_depth(obj))
+        return tuple(o.fields[f] for o, f in self._slots(obj))
+
+    def slot_names(self) -> list[str]:
+        return [f for _, f in self._slots(self.interp.instantiate(self.pred))]
 
     LOW = -2
 
-    def _with_state(self, exact: tuple) -> PredObj:
+    def _with_state(self, exact: tuple):
         obj = self.interp.instantiate(self.pred)
-        for o, d in zip(self._objs_with_depth(obj), exact):
-            o.fields["depth"] = d
+        for (o, f), d in zip(self._slots(obj), exact):
+            o.fields[f] = d
         return obj
 
     def _concretisations(self, state: tuple):
@@ -608,11 +850,11 @@ class PredModel:
         # LOW and LOW-1): the methods only compare depth with the literal 0 and
         # add/subtract 1, so members on the same side of every literal behave
         # alike; both representatives are evaluated and all outcomes are kept.
-        opts = [((d, d + 1) if d >= self.cap else (d, d - 1) if d <= self.LOW else (d,)) for d in state]
+        opts = [((d,) if isinstance(d, bool) else (d, d + 1) if d >= self.cap else (d, d - 1) if d <= self.LOW else (d,)) for d in state]
         return itertools.product(*opts)
 
     def _abstract(self, exact: tuple) -> tuple:
-        return tuple(max(min(d, self.cap), self.LOW) for d in exact)
+        return tuple(d if isinstance(d, bool) else max(min(d, self.cap), self.LOW) for d in exact)
 
     def accept(self, state: tuple, tok: AToken) -> set[tuple[bool, tuple]]:
         """All (accepted, next abstract state) outcomes (a set: saturation makes the
@@ -623,7 +865,9 @@ class PredModel:
             r = self.interp.call_method(obj, "accept", [tok])
             if not isinstance(r, bool):
                 raise Unsupported(f"{self.pred}.accept returned non-bool {r!r}")
-            nxt = tuple(o.fields["depth"] for o in self._objs_with_depth(obj))
+            nxt = tuple(o.fields[f] for o, f in self._slots(obj))
+            if not all(isinstance(x, (int, bool)) for x in nxt):
+                raise Unsupported(f"{self.pred}.accept leaves a non-integer state {nxt!r}")
             res.add((r, self._abstract(nxt)))
         return res
 
@@ -631,7 +875,7 @@ class PredModel:
         vals = set()
         for exact in self._concretisations(state):
             obj = self._with_state(exact)
-            m = obj.ci.find_method("is_open")
+            m = (getattr(obj, "cls", None) or obj.ci).find_method("is_open")
             if m is None:
                 return None
             vals.add(bool(self.interp.call_method(obj, "is_open", [])))
